@@ -62,6 +62,7 @@ def parseFlags (s : String) : Option (Nat × Bool × Bool × Bool × Bool × Boo
       else none
 
 inductive Op9
+  | shapes
   | fs (op : Op)
   | flush (op : Op)
   | marshal
@@ -118,10 +119,19 @@ def parseOp (s : String) : Option Op9 :=
   | ["remove", p] => (pathOf? p).map (fun p => Op9.fs (Op.remove p))
   | ["removeall", p] => (pathOf? p).map (fun p => Op9.fs (Op.removeAll p))
   | ["flush", p, b] => (pathOf? p).map (fun p => Op9.flush (Op.flush p (b == "1")))
+  | ["shapes"] => some Op9.shapes
   | ["marshal"] => some Op9.marshal
   | ["sync"] => some Op9.sync
   | ["keep", sc] => (parseScript sc).map (fun r => Op9.keep r.1 r.2)
   | _ => none
+
+def segShape : Seg → String
+  | Seg.mem buf fl => "m" ++ toString buf.length ++ (if fl = Flush.none then "" else "!")
+  | Seg.stored loc size off l =>
+    "s" ++ toString l ++ "." ++ toString off ++ "." ++ toString size ++ "." ++ String.ofList ((loc.take 8).map (fun b => Char.ofNat b.toNat))
+
+def fileShape (fn : FileNode) : String :=
+  "Z" ++ toString fn.size ++ "/" ++ "+".intercalate (fn.segs.map segShape)
 
 def hexPath (p : List Bytes) : String := hexOfBytes (C10.joinWith C10.bSlash p)
 
@@ -173,6 +183,9 @@ def runOps (max : Nat) (init : List Bytes) : DState → List Op9 → List String
       let n := s'.world.calls - st.s.world.calls
       let f := s'.world.fails - st.s.world.fails
       runOps max init { s := s', racy := st.racy || (0 < f && f < n) } ops (resStr r :: acc)
+    | Op9.shapes =>
+      let l := (project st.s).flatMap (fun d => d.1.files.map (fun f => hexPath (d.1.path ++ [f.1]) ++ "=" ++ fileShape f.2))
+      runOps max init st ops (("s" ++ (if st.racy then "~" else "=") ++ ":" ++ joinOr "|" (sortStrings l) ++ ":" ++ storeStr init st.s.world) :: acc)
     | Op9.keep sc d =>
       let s' := { st.s with world := { st.s.world with script := sc, dflt := d } }
       runOps max init { st with s := s' } ops ("ok" :: acc)
